@@ -25,6 +25,14 @@ func main() {
 			tier = t
 		}
 		os.Exit(runParent(os.Args[2], tier, nil))
+	case "racepass":
+		reps := 20
+		fmt.Sscanf(os.Args[2], "%d", &reps)
+		tier := "quick"
+		if len(os.Args) > 3 {
+			tier = os.Args[3]
+		}
+		racePassMain(reps, tier)
 	case "worker":
 		os.Exit(runWorker(os.Args[2], os.Args[3]))
 	case "replay":
